@@ -86,6 +86,92 @@ def polarity(row, body=None):
     return None, conditional
 
 
+def polarity_mir(facts, row):
+    """Polarity of a kind predicate decided on MIR, for shapes the lexical analysis does not read (the verdict carried
+    through a tuple or a local to a later test, ...): follow the predicate's result - through copies, negations, tuple
+    fields, the closure it is returned from and the Iterator::all that consumes that closure - to the switch it decides,
+    and see which edge of that switch can no longer reach a successful return.
+    Returns True (tags for which the predicate holds are admitted), False, or None."""
+    fn = facts.fn(row['fn'])
+    if fn is None or not fn.mir:
+        return None
+    fam = [fn] + list(facts.closures_of(fn))
+    sites = [(f2, b, t) for f2 in fam for b, t in f2.calls() if callee_of(t) and P.strip(callee_of(t)['def']).endswith('TagWrap::' + row['pred']) and t.get('ln') == row['line']]
+    if len(sites) != 1:
+        return None
+    f2, b, t = sites[0]
+
+    def propagate(g, seeds):
+        """seeds: {(local, field or None): parity} -> closure of the same under copies / Not / tuple fields"""
+        tr = dict(seeds)
+        changed = True
+        while changed:
+            changed = False
+            for bi, blk in g.blocks():
+                for s in blk['stmts']:
+                    if s['s'] != 'assign' or s['place']['proj']:
+                        continue
+                    dl = s['place']['l']
+                    rv = s['rv']
+                    new = []
+                    if rv['r'] in ('use', 'cast') and 'l' in rv['op']:
+                        fld = MF._first_field(rv['op'])
+                        k = (rv['op']['l'], fld)
+                        if k in tr:
+                            new.append(((dl, None), tr[k]))
+                    elif rv['r'] == 'unop' and rv.get('op') == 'Not' and 'l' in rv.get('e', rv.get('a', {})):
+                        o = rv.get('e', rv.get('a'))
+                        k = (o['l'], MF._first_field(o))
+                        if k in tr:
+                            new.append(((dl, None), 1 - tr[k]))
+                    elif rv['r'] == 'aggr' and rv.get('ak') == 'tuple':
+                        for i, o in enumerate(rv['ops']):
+                            if 'l' in o and (o['l'], MF._first_field(o)) in tr:
+                                new.append(((dl, i), tr[(o['l'], MF._first_field(o))]))
+                    for k, v in new:
+                        if k not in tr:
+                            tr[k] = v
+                            changed = True
+        return tr
+    tr = propagate(f2, {(t['dest']['l'], None): 0})
+    g = f2
+    if f2.kind == 'Closure':
+        if (0, None) not in tr:
+            return None
+        par = tr[(0, None)]
+        # the parent consumes the closure with Iterator::all
+        g = fn
+        seeds = {}
+        for bi, tt in g.calls():
+            cal = callee_of(tt)
+            if cal and P.strip(cal['def']).split('::')[-1] == 'all':
+                sl = MF.slice_back(g, tt['args'][1]['l'], through_calls=False) if len(tt['args']) > 1 and 'l' in tt['args'][1] else {'aggrs': []}
+                if any(rv.get('closure_id') == f2.id for rv, _ in sl['aggrs']):
+                    seeds[(tt['dest']['l'], None)] = par
+        if not seeds:
+            return None
+        tr = propagate(g, seeds)
+    verdicts = set()
+    for bi, blk in g.blocks():
+        sw = blk['term']
+        if sw['t'] != 'switch' or 'l' not in sw['discr']:
+            continue
+        k = (sw['discr']['l'], None)
+        if k not in tr:
+            continue
+        p = tr[k]
+        zero = [x for v, x in sw['targets'] if v == '0']
+        if not zero:
+            continue
+        zero_fails = not P.success_return_reachable(g, zero[0], [])
+        nonzero_fails = not P.success_return_reachable(g, sw['otherwise'], [])
+        if zero_fails and not nonzero_fails:
+            verdicts.add(p == 0)
+        elif nonzero_fails and not zero_fails:
+            verdicts.add(p == 1)
+    return verdicts.pop() if len(verdicts) == 1 else None
+
+
 def cond_tagset(T, fn, want_branch):
     """In `fn`, find the if one of whose branches satisfies want_branch and whose condition applies tag predicates to one
     local; return ({tag: truth of "that branch is taken"}, if-expr) or (None, None)."""
@@ -243,6 +329,8 @@ def r1_agree(c, facts, T):
             if r['pos'] == pos and overlap(g, r['guard']):
                 body = facts.fn(r['fn']).hir['body'] if facts.fn(r['fn']) is not None else None
                 pol, conditional = polarity(r, body)
+                if pol is None and not conditional:
+                    pol = polarity_mir(facts, r)
                 if conditional:
                     continue
                 if pol is None:
